@@ -209,6 +209,34 @@ class Repo:
             raise AnalysisError(f"anchor vanished: function {relpath}::{qualname}")
         return f
 
+    def helpers_of(self, f: Func, depth=2):
+        """module-level functions of f's module and methods of f's class that f hands work to (transitively, bounded): a block
+        moved into `_check_items_exist(...)` or `self._helper(...)` is still part of what f does"""
+        out, todo, seen = [], [(f, 0)], {id(f.node)}
+        while todo:
+            g, d = todo.pop(0)
+            if d >= depth:
+                continue
+            for c in A.calls_in(g.node):
+                tgt = None
+                if isinstance(c.func, ast.Name):
+                    kind, obj = self.resolve_name(g.module, c.func.id)
+                    if kind == "func" and obj.module is g.module and obj.cls is None:
+                        tgt = obj
+                elif isinstance(c.func, ast.Attribute) and isinstance(c.func.value, ast.Name) and c.func.value.id in ("self", "cls") and g.cls is not None:
+                    tgt = g.cls.methods.get(c.func.attr)
+                if tgt is not None and id(tgt.node) not in seen:
+                    seen.add(id(tgt.node))
+                    out.append(tgt)
+                    todo.append((tgt, d + 1))
+        return out
+
+    def walk_deep(self, f: Func, depth=2):
+        """ast.walk over f and over the helpers it hands work to"""
+        yield from ast.walk(f.node)
+        for g in self.helpers_of(f, depth):
+            yield from ast.walk(g.node)
+
     def walk_with_tables(self, f: Func, node=None):
         """ast.walk over (a part of) a function, followed by the value expressions of the module-level names it reads:
         a literal table hoisted out of the function into a module constant is still `the function's table`"""
